@@ -258,6 +258,19 @@ def load_property(prop: str):
     return importlib.import_module(f"vf.props.{prop.lower()}")
 
 
+def _pin_worker(counter) -> None:
+    """Pin each worker to one core *before* scipp is imported: TBB sizes its thread pool from the
+    affinity mask, and 16 workers x 16 TBB threads only produce contention."""
+    try:
+        cpus = sorted(os.sched_getaffinity(0))
+        with counter.get_lock():
+            k = counter.value
+            counter.value += 1
+        os.sched_setaffinity(0, {cpus[k % len(cpus)]})
+    except (AttributeError, OSError):
+        pass
+
+
 def run_task(args) -> dict:
     prop, facet_name, tier, shard, nshards, ncases, seed = args
     t0 = time.time()
@@ -413,7 +426,9 @@ def run_property(prop: str, tier: str, seed: int, only: list | None = None, jobs
         from concurrent.futures import ProcessPoolExecutor
 
         ctx = mp.get_context("spawn")
-        with ProcessPoolExecutor(max_workers=min(jobs, len(tasks)), mp_context=ctx) as ex:
+        counter = ctx.Value("i", 0)
+        with ProcessPoolExecutor(max_workers=min(jobs, len(tasks)), mp_context=ctx,
+                                 initializer=_pin_worker, initargs=(counter,)) as ex:
             results = list(ex.map(run_task, tasks))
 
     per_facet = {}
